@@ -1,11 +1,12 @@
 (* Driver for the extracted report model (C20). One tab-separated case per line on stdin, one
    result per line on stdout.
      strings   : comma-separated scalar values, "-" for the empty string
-     results   : ";"-separated  status|path|total|code|comment|blank   (status 0..3 = P W F G), "-" for none
+     results   : ";"-separated  status|path|total|code|comment|blank[|1]   (status 0..3 = P W F G; a seventh
+                 field 1 marks a structure result), "-" for none
      files     : ";"-separated  path|lang|total|code|comment|blank, "-" for none
      pi        : comma-separated naturals (selection code), "-" for the empty code
-   commands  : summary R | listed FMT VERBOSE R | agg R | totals F | bylang V PI F | bydir V DEPTH PI F
-               | reg V PI BUILTIN CUSTOMS EXTS | esc S | uri BYTES | eff T C M B SKIPC SKIPB | exit R WARNONLY WAE RATCHET *)
+   commands  : summary R | listed FMT VERBOSE R | agg V R | totals F | bylang V PI F | bydir V DEPTH PI F
+               | reg V PI BUILTIN CUSTOMS EXTS | roots ROOTS | esc S | uri BYTES | eff T C M B SKIPC SKIPB | exit R WARNONLY WAE RATCHET *)
 open Report_ex
 let rec pos_of_int n = if n = 1 then XH else if n land 1 = 0 then XO (pos_of_int (n lsr 1)) else XI (pos_of_int (n lsr 1))
 let n_of_int n = if n = 0 then N0 else Npos (pos_of_int n)
@@ -24,6 +25,10 @@ let result_of s = match String.split_on_char '|' s with
   | [st; p; t; c; m; b] ->
     { r_path = dec p; r_status = status_of st; r_stats = ls t c m b; r_raw = Some (ls t c m b); r_limit = N0;
       r_reason = None; r_sugg = None; r_structure = false }
+  | [st; p; t; c; m; b; "1"] ->
+    (* a structure result: synthetic count in the statistics, no raw statistics *)
+    { r_path = dec p; r_status = status_of st; r_stats = ls t c m b; r_raw = None; r_limit = N0;
+      r_reason = None; r_sugg = None; r_structure = true }
   | _ -> failwith "bad result"
 let file_of s = match String.split_on_char '|' s with
   | [p; l; t; c; m; b] -> { f_path = dec p; f_lang = dec l; f_stats = ls t c m b }
@@ -46,8 +51,8 @@ let () =
         let rs = List.map result_of (items r) in
         let es = listed (fmt_of f) (v = "1") rs in
         print_endline (if es = [] then "-" else String.concat ";" (List.map (fun (p, st) -> status_str st ^ "|" ^ enc p) es))
-      | ["agg"; r] ->
-        let a = html_aggregate (List.map result_of (items r)) in
+      | ["agg"; v; r] ->
+        let a = (if v = "0" then html_aggregate_v0 else html_aggregate) (List.map result_of (items r)) in
         Printf.printf "%d %d %d %d\n" (int_of_n a.l_total) (int_of_n a.l_code) (int_of_n a.l_comment) (int_of_n a.l_blank)
       | ["totals"; f] ->
         let t = project_totals (List.map file_of (items f)) in
@@ -67,6 +72,13 @@ let () =
         let f = if v = "0" then language_of_v0 else language_of in
         print_endline (String.concat ";" (List.map (fun x -> match f (pi_of pi) builtin customs (dec x) with
             | None -> "?" | Some n -> enc n) (items e)))
+      | ["roots"; r] ->
+        (* r = ";"-separated roots, each "." (the current directory) or "/"-separated encoded components *)
+        let path_of x = if x = "." then [] else List.map dec (String.split_on_char '/' x) in
+        let show p = if p = [] then "." else String.concat "/" (List.map enc p) in
+        let roots = List.map path_of (items r) in
+        let kept = drop_covered roots in
+        print_endline ((if kept = [] then "-" else String.concat ";" (List.map show kept)) ^ "\t" ^ (if roots_overlap roots then "1" else "0"))
       | ["esc"; s] ->
         let s = dec s in
         let e = html_escape s in
